@@ -122,7 +122,7 @@ int main(int argc, char** argv){
     static const int hmax[5] = {0, 8, 6, 5, 4};
     g.maxH = int(a.getInt("maxh", hmax[Dim])); g.maxN = int(a.getInt("maxn", 150));
 #if RT == 1
-    g.schedules = true; g.executors = 2;
+    g.schedules = true; g.executors = 2; g.varyThreads = false;   // C18 quantifies over a constant worker count
 #endif
     return hc::runMain(a, g, [&](const FmmCase& c){ return propCounter(c); });
 }
